@@ -3,6 +3,7 @@
 Every data command x presets x arities x {with, without a missing cell}: a fixed multiset of 4 distinct cells arranged in EVERY
 one of the 10 shapes of size 4 (rank 1-3 incl. length-1 axes) and EVERY one of the 24 cell permutations (inputs of n-ary commands
 permuted jointly); likewise 6 cells / the shapes of size 6 / cyclic shifts + reversal (thorough: all 720 permutations).
+Memory layouts: C-ordered, Fortran-ordered, transposed view, strided view (identical logical cells).
 Oracle: result.shape == input shape; result of the rearranged inputs == the same rearrangement of the base result.
 """
 import itertools
@@ -93,14 +94,23 @@ def run(case):
         allp = list(itertools.permutations(range(6)))
         perm_sets += [(s, allp) for s in ((6,), (2, 3), (3, 2), (1, 6, 1), (2, 1, 3))]
     sample = None
+    runs = []
     for shape, perms in perm_sets:
-        for pm in perms:
-            arrays = [D.mk_array([c[k] for k in pm], shape=shape, dtype=dt) for c in cols]
+        for pi_, pm in enumerate(perms):
+            runs.append((shape, pm, "C"))
+            # memory layout is not observable: Fortran-ordered, transposed-view and strided inputs must behave like the C-ordered ones
+            if len(shape) >= 2 and pi_ < 3:
+                runs += [(shape, pm, "F"), (shape, pm, "T"), (shape, pm, "S")]
+            elif pi_ == 0:
+                runs.append((shape, pm, "S"))
+    for shape, pm, layout in runs:
+        if True:
+            arrays = [D.relayout(D.mk_array([c[k] for k in pm], shape=shape, dtype=dt), layout) for c in cols]
             res = D.execute(cmd, arrays, params)
             evals += 1
             nontriv += 1
             judged += 1
-            tag = dict(tag0, shape=list(shape), perm=list(pm))
+            tag = dict(tag0, shape=list(shape), perm=list(pm), memory_layout=layout)
             sample = tag
             if res[0] == "err":
                 if base_cells is not None:
@@ -128,8 +138,8 @@ def run(case):
                     else:
                         ok = ok and abs(a - b) <= tol * max(1.0, abs(b))
                 if not ok:
-                    viols.append(V("C05:%s:not-equivariant" % cmd, "%s: cell %d of the rearranged run (shape %r perm %r) is %r, base cell %d is %r" % (
-                        cmd, i, shape, pm, a, k, b), **tag))
+                    viols.append(V("C05:%s:not-equivariant%s" % (cmd, "" if layout == "C" else ":memory-layout"), "%s: cell %d of the rearranged run (shape %r perm %r layout %s) is %r, base cell %d is %r" % (
+                        cmd, i, shape, pm, layout, a, k, b), **tag))
                     break
             k2 = "%s:rank%d:%s" % (cmd, len(shape), "ok" if ok else "bad")
             outcomes[k2] = outcomes.get(k2, 0) + 1
